@@ -17,6 +17,13 @@ pub fn is_layout(kind: LayoutKind, s: &str) -> bool {
                 i += 1;
             }
             items += 1;
+        } else if kind == LayoutKind::WsPair {
+            if i + 1 < b.len() && b[i] == '~' && b[i + 1] == '^' {
+                i += 2;
+                items += 1;
+            } else {
+                return false;
+            }
         } else if kind != LayoutKind::Ws && i + 1 < b.len() && b[i] == '/' && b[i + 1] == '/' {
             while i < b.len() && b[i] != '\n' {
                 i += 1;
@@ -68,7 +75,7 @@ mod tests {
     use crate::gen::layout_pool;
     #[test]
     fn pools_are_sentences() {
-        for k in [LayoutKind::Ws, LayoutKind::WsLine, LayoutKind::WsLineBlock] {
+        for k in [LayoutKind::Ws, LayoutKind::WsLine, LayoutKind::WsLineBlock, LayoutKind::WsPair] {
             for s in layout_pool(Some(k)) {
                 assert!(is_layout(k, s), "{k:?} {s:?}");
             }
